@@ -12,6 +12,9 @@ CLAIMS = {
  'C01': dict(engine='netmc', ref='DESIGN.md §2, §5 C01',
    text='Every environment schedule with <= d deviations (delayed peer action, slow/partial reader, short write, would-block) of every tunnel / HTTP relay scenario (payload alphabet x packings x scaled and full-size buffer thresholds) is executed on the real LocalFdExecutor event loop; client and upstream byte streams are compared for equality with what the peers sent.',
    note=NETMC_NOTE, technique='stateless model checking of the implementation (deviation-bounded exhaustive schedule enumeration over the real event loop)'),
+ 'C04': dict(engine='netmc', ref='DESIGN.md §2, §5 C04',
+   text='Every request sequence of length 1..3 over {GET, POST with Content-Length, chunked POST, GET to another origin/route} in every packing (one request per segment waiting for each response, pipelined, all in one segment, cuts around the request boundary) is run through the forward proxy, the built-in web server (two route plugins) and the reverse proxy (two routes/upstreams) under every schedule with <= d postponed peer actions / slow reads; the client stream is parsed with h11 and must hold exactly one response per request, in order, stamped by the origin/route, method, path and body the request names; every origin must have seen exactly its requests in order.',
+   note=NETMC_NOTE + ' Two recorded findings (follow-up request naming a different origin/upstream) are matched structurally, see known_findings.json.', technique='stateless model checking of the implementation (deviation-bounded schedule enumeration) with an independent HTTP parser as oracle'),
  'C05': dict(engine='netmc', ref='DESIGN.md §2, §5 C05', category='model_checking',
    text='Two or three connections share ONE real executor loop (local and remote mode). The adversary connection runs every script of a corpus (malformed and non-UTF-8 requests, truncation at chosen/every byte, client abort/RST/half-close, upstream refuse/timeout/unreachable/DNS failure/early close/garbage, all four proxy roles incl. a second keep-alive request) and, on top, every single injected I/O error (connect/send/recv) and every postponed peer action (d<=1 quick, d<=2 thorough, plus both orders of same-tick task completion); a canary connection started concurrently, 3 turns later and after the adversary, must be served exactly as when alone and run() must not return.',
    note=NETMC_NOTE, technique='stateless model checking of the implementation with exhaustive single/double fault injection at every SUT I/O call'),
